@@ -314,10 +314,11 @@ func fromModel(doc *model.Document) ldoc {
 // satisfy the property with respect to what Document() delivers for the same file.
 func runEndToEnd(c *hx.Ctx) {
 	n := c.N(25, 300)
-	for i := 0; i < n; i++ {
+	nrep := c.N(15, 150) // further files in which heading texts recur
+	for i := 0; i < n+nrep; i++ {
 		r := c.Rng.Fork(uint64(2000000 + i))
 		sz := sizeCase{Name: "default-api", Cfg: rag.DefaultSizeConfig(), CC: rag.DefaultChunkerConfig(), API: 0, MaxLen: 2000}
-		src := genDoc(r, sz)
+		src := genDoc(r, sz, i >= n)
 		path := filepath.Join(c.OutDir, fmt.Sprintf("e2e-%d.html", i))
 		os.WriteFile(path, []byte(htmlOf(src)), 0o644)
 		k := kase{Seed: c.Seed, Index: i, Mode: "e2e"}
@@ -342,6 +343,9 @@ func runEndToEnd(c *hx.Ctx) {
 		checkChunks(c, coverOpts{prefix: "C12/", kinds: allKinds, crossKind: true, exactPage: true, inPath: allKinds, pages: pagesOf(d)},
 			atomsOf(d, func(int) bool { return true }), vs, k, what)
 		c.Count("e2e/html")
+		if i >= n {
+			countRepeats(c, "e2e-repeat", d)
+		}
 		c.Case("e2e"+docWire(d), len(vs) > 0)
 	}
 }
